@@ -127,6 +127,8 @@ def finish(ctx, level_text, explanation, rule_text):
             'notes': ctx.notes[:60],
             'trusted_base': ctx.trusted,
             'exhaustive': True,
+            'path_exploration': 'full (graph-cut shortcut disabled)' if os.environ.get('VERIF_EXHAUSTIVE') else 'graph-cut shortcut where sound, path-sensitive otherwise',
+            'teeth': getattr(ctx, 'teeth', None),
         },
         'assumptions': ctx.assumptions,
         'wall_s': round(time.time() - ctx.t0, 3),
